@@ -281,6 +281,41 @@ func ExecBlock(client queue.Client, prevStateRoot []byte, block *types.Block, er
 	return detail, deltx, nil
 }
 
+// pooledTxs fetches from the mempool the transactions it reported as existing (by hash); the
+// result is indexed like txs, nil where the pool holds nothing or cannot be asked
+func pooledTxs(client queue.Client, txs []*types.TransactionCache, existFlags []bool) []*types.Transaction {
+	pooled := make([]*types.Transaction, len(txs))
+	req := &types.ReqTxHashList{}
+	var indices []int
+	for i, exist := range existFlags {
+		if exist && i < len(txs) {
+			req.Hashes = append(req.Hashes, string(txs[i].Hash()))
+			indices = append(indices, i)
+		}
+	}
+	if len(indices) == 0 {
+		return pooled
+	}
+	msg := client.NewMessage("mempool", types.EventTxListByHash, req)
+	if err := client.Send(msg, true); err != nil {
+		return pooled
+	}
+	reply, err := client.Wait(msg)
+	if err != nil {
+		return pooled
+	}
+	list, ok := reply.GetData().(*types.ReplyTxList)
+	if !ok {
+		return pooled
+	}
+	for k, tx := range list.GetTxs() {
+		if k < len(indices) {
+			pooled[indices[k]] = tx
+		}
+	}
+	return pooled
+}
+
 // PreExecBlock : pre exec block
 func PreExecBlock(client queue.Client, prevStateRoot []byte, block *types.Block, errReturn, sync, checkblock bool) (*types.BlockDetail, []*types.Transaction, error) {
 	//发送执行交易给execs模块
@@ -312,10 +347,13 @@ func PreExecBlock(client queue.Client, prevStateRoot []byte, block *types.Block,
 		unverifiedTxs := block.Txs
 		//区块中交易在mempool中已有存在情况，重新构造需要验签的交易列表
 		if replyData.ExistCount > 0 {
-			unverifiedTxs = make([]*types.Transaction, 0, len(block.Txs)-int(replyData.ExistCount))
+			// the tx hash covers neither the signature nor the public key: a pooled tx only vouches
+			// for the tx in the block when both are the same signed tx (same full hash)
+			pooled := pooledTxs(client, cacheTxs, replyData.ExistFlags)
+			unverifiedTxs = make([]*types.Transaction, 0, len(block.Txs))
 			for index, exist := range replyData.ExistFlags {
 				//只需要对mempool中不存在的交易验签
-				if !exist {
+				if !exist || pooled[index] == nil || !bytes.Equal(pooled[index].FullHash(), block.Txs[index].FullHash()) {
 					unverifiedTxs = append(unverifiedTxs, block.Txs[index])
 				}
 			}
